@@ -12,9 +12,12 @@ import json
 import os
 import numpy as np
 from harness import common as C
+from harness import c03lib as L
 
-RULE = ('scalar conversions: log-uniform arguments; fixed-sampling routes: random complex fields on m x n grids '
-        '(m,n in 3..14 quick / ..24 thorough, every parity pair, square and not), output grids of every parity, '
+RULE = ('scalar conversions: log-uniform arguments; fixed-sampling routes: random fields of dtype complex128 / float64 / int64 / bool '
+        'in C, Fortran, transposed-view and strided-view layout on m x n grids (m,n in 1..12 quick / ..22 thorough, every parity '
+        'pair, square and not, 1-sample axes included), output grids of every parity given as int / tuple / list / ndarray, shifts '
+        'given as tuple / list / ndarray / left at the default, '
         'requested spacing 0.31..1.7 x the FFT spacing, shifts 0 / integer / fractional output samples on either axis, '
         'methods mdft and czt, both directions; FFT route: Q in {1,2,3,1.5,2.37}; spot predicates: flat pupils with '
         'k in {0,+-1,+-2.5,3,-1.75} waves of tilt on either axis. A case is non-trivial unless the array is 1x1 or '
@@ -35,11 +38,6 @@ def _impl():
 
 def _cen(n):
     return np.arange(n) - n // 2
-
-
-def _field(seed, shape):
-    r = np.random.default_rng(int(seed))
-    return r.uniform(-1, 1, shape) + 1j * r.uniform(-1, 1, shape)
 
 
 def dirichlet(n, u):
@@ -144,11 +142,11 @@ def pred_spot_fixed(c):
     lam, efl, dx, dxo = c['lam'], c['efl'], c['dx'], c['dxo']
     sx, sy = c['shift'][0] * dxo, c['shift'][1] * dxo
     wf = tilted_pupil(pr, m, n, dx, lam, c['ky'], c['kx'])
-    psf = wf.focus_fixed_sampling(efl, dxo, (M, N), shift=(sx, sy), method=c['method'])
-    if psf.data.shape != (M, N):
-        return f'output shape {psf.data.shape}'
-    if abs(psf.dx - dxo) > 1e-15 * dxo:
-        return f'reported dx {psf.dx} != requested {dxo}'
+    kw = {} if c.get('hform') == 'default' else {'shift': L.shift_arg(c.get('hform', 'tuple'), sx, sy)}
+    psf = wf.focus_fixed_sampling(efl, dxo, L.samples_arg(c.get('sform', 'tuple'), M, N), method=c['method'], **kw)
+    bad = L.check_wavefront(psf, 'focus_fixed_sampling(...)', (M, N), dxo, lam, 'psf')
+    if bad:
+        return bad
     I = psf.intensity
     return _spot_check(I.data, I.x[0], I.y[:, 0], m, n, dx, lam, efl, c['ky'], c['kx'], dx * dxo / (lam * efl), sx, sy)
 
@@ -178,26 +176,68 @@ def fft_padded_shape(c):
 
 
 def pred_phys_fixed(c):
-    """|out[k,l]| = norm * |physical integral at ((k-M//2) dxo - shift_y, (l-N//2) dxo - shift_x)| for an arbitrary field"""
+    """out[k,l] = norm * physical integral at ((k-M//2) dxo - shift_y, (l-N//2) dxo - shift_x) for an arbitrary field of any
+    dtype / layout: as complex numbers when no shift is requested (no free phase then), in modulus otherwise.  Called through the
+    Wavefront wrapper or the free function, with every documented spelling of the sample counts and the shift."""
     pr, _ = _impl()
     m, n, M, N = c['m'], c['n'], c['M'], c['N']
     lam, z, dx, dxo = c['lam'], c['efl'], c['dx'], c['dxo']
     sx, sy = c['shift'][0] * dxo, c['shift'][1] * dxo
-    f = _field(c['seed'], (m, n))
-    if c['dir'] == 'fwd':
-        wf = pr.Wavefront(f, lam, dx, 'pupil')
-        out = wf.focus_fixed_sampling(z, dxo, (M, N), shift=(sx, sy), method=c['method'])
-        sign = -1
+    f = L.case_field(c)
+    f0 = f.copy()
+    kw = {} if c.get('hform') == 'default' else {'shift': L.shift_arg(c.get('hform', 'tuple'), sx, sy)}
+    so = L.samples_arg(c.get('sform', 'tuple'), M, N)
+    fwd = c['dir'] == 'fwd'
+    sign, space = (-1, 'psf') if fwd else (+1, 'pupil')
+    name = f'{"" if fwd else "un"}focus_fixed_sampling(...)'
+    if c.get('api') == 'function':
+        fn = pr.focus_fixed_sampling if fwd else pr.unfocus_fixed_sampling
+        data = fn(f, dx, z, lam, dxo, so, method=c['method'], **kw)
+        if not isinstance(data, np.ndarray) or data.shape != (M, N):
+            return f'{name} returned {type(data).__name__} of shape {getattr(data, "shape", None)}, expected an ({M},{N}) array'
+        xs, ys = _cen(N) * dxo, _cen(M) * dxo
     else:
-        wf = pr.Wavefront(f, lam, dx, 'psf')
-        out = wf.unfocus_fixed_sampling(z, dxo, (M, N), shift=(sx, sy), method=c['method'])
-        sign = +1
-    I = out.intensity
-    xi, eta = I.x[0] - sx, I.y[:, 0] - sy
-    ref = (dx * dxo / (lam * z)) * np.abs(phys_integral(f, dx, lam, z, eta, xi, sign))
-    err = _relerr(np.abs(out.data), ref)
+        wf = pr.Wavefront(f, lam, dx, 'pupil' if fwd else 'psf')
+        out = (wf.focus_fixed_sampling if fwd else wf.unfocus_fixed_sampling)(z, dxo, so, method=c['method'], **kw)
+        bad = L.check_wavefront(out, name, (M, N), dxo, lam, space)
+        if bad:
+            return bad
+        data = out.data
+        I = out.intensity
+        xs, ys = I.x[0], I.y[:, 0]
+    if f.dtype != f0.dtype or not np.array_equal(f, f0):
+        return 'the input array was modified in place'
+    ref = (dx * dxo / (lam * z)) * phys_integral(L.as_complex(f), dx, lam, z, ys - sy, xs - sx, sign)
+    if any(c['shift']):
+        err = _relerr(np.abs(data), np.abs(ref))
+        what = '|out| differs from the modulus of the physical integral at the reported coordinates minus the shift'
+    else:
+        err = _relerr(data, ref)
+        what = 'out differs (as complex numbers, no shift requested) from the physical integral at the reported coordinates'
     if err > TOL:
-        return f'|out| differs from the physical integral at the reported coordinates minus the shift (rel. err {err:.3g})'
+        return f'{what} (rel. err {err:.3g}; dtype {f0.dtype}, method {c["method"]})'
+    return None
+
+
+def pred_pure(c):
+    """the propagation functions are pure: same answer when called twice on the same objects, inputs left untouched"""
+    pr, _ = _impl()
+    f = L.case_field(c)
+    f0 = f.copy()
+    if 'Q' in c:
+        wf = pr.Wavefront(f, c['lam'], c['dx'], 'pupil' if c['dir'] == 'fwd' else 'psf')
+        call = lambda: (wf.focus if c['dir'] == 'fwd' else wf.unfocus)(c['efl'], c['Q']).data   # noqa: E731
+    else:
+        fn = pr.focus_fixed_sampling if c['dir'] == 'fwd' else pr.unfocus_fixed_sampling
+        sx, sy = c['shift'][0] * c['dxo'], c['shift'][1] * c['dxo']
+        call = lambda: L.call_fixed(fn, f, c['dx'], c['efl'], c['lam'], c['dxo'], c['M'], c['N'], sx, sy, c['method'],   # noqa: E731
+                                    c.get('sform', 'tuple'), c.get('hform', 'tuple'))
+    a = np.array(call())
+    if f.dtype != f0.dtype or not np.array_equal(f, f0):
+        return 'implementation modified a caller-owned argument array in place'
+    b = np.array(call())
+    if a.shape != b.shape or not np.array_equal(a, b):
+        return 'second evaluation with the same arguments differs from the first (history dependence)'
     return None
 
 
@@ -206,7 +246,7 @@ def pred_shift_fixed(c):
     pr, _ = _impl()
     m, n, M, N = c['m'], c['n'], c['M'], c['N']
     lam, z, dx, dxo = c['lam'], c['efl'], c['dx'], c['dxo']
-    f = _field(c['seed'], (m, n))
+    f = L.case_field(c)
     fn = pr.focus_fixed_sampling if c['dir'] == 'fwd' else pr.unfocus_fixed_sampling
     s0 = (c['shift'][0] * dxo, c['shift'][1] * dxo)
     px, py = c['p']
@@ -236,9 +276,10 @@ def pred_tilt_unfocus_fixed(c):
     wf = pr.Wavefront(F, lam, dxf, 'psf')
     I0 = wf.intensity
     eta0, xi0 = I0.y[M // 2 + c['pos'][0], 0], I0.x[0, N // 2 + c['pos'][1]]
-    pup = wf.unfocus_fixed_sampling(efl, dxp, (m, n), method=c['method'])
-    if abs(pup.dx - dxp) > 1e-15 * dxp:
-        return f'reported dx {pup.dx} != requested {dxp}'
+    pup = wf.unfocus_fixed_sampling(efl, dxp, L.samples_arg(c.get('sform', 'tuple'), m, n), method=c['method'])
+    bad = L.check_wavefront(pup, 'unfocus_fixed_sampling(...)', (m, n), dxp, lam, 'pupil')
+    if bad:
+        return bad
     P = pup.phase
     X, Y = P.x, P.y
     ref = np.exp(2j * np.pi * (X * xi0 + Y * eta0) / (lam * efl))
@@ -273,7 +314,7 @@ def pred_tilt_unfocus_fft(c, axis1_only=False):
     return None
 
 
-PREDS = {'conv': pred_conv, 'spot_fixed': pred_spot_fixed, 'spot_fft': pred_spot_fft, 'phys_fixed': pred_phys_fixed,
+PREDS = {'ffs': pred_pure, 'ufs': pred_pure, 'fft_focus': pred_pure, 'fft_unfocus': pred_pure, 'conv': pred_conv, 'spot_fixed': pred_spot_fixed, 'spot_fft': pred_spot_fft, 'phys_fixed': pred_phys_fixed,
          'shift_fixed': pred_shift_fixed, 'tilt_unfocus_fixed': pred_tilt_unfocus_fixed,
          'tilt_unfocus_fft': pred_tilt_unfocus_fft}
 
@@ -299,12 +340,16 @@ def eval_pred(item, c, ctx=None):
 
 
 def _witness():
-    """True while Wavefront.focus still reports one dx for a non-square padded array whose y spacing differs"""
-    c = {'m': 8, 'n': 12, 'Q': 1, 'lam': 0.5, 'efl': 100.0, 'dx': 0.5, 'ky': 1, 'kx': 0}
+    """True while Wavefront.focus reports, for a non-square padded array, a dx that is not the spacing of axis 0
+    (evaluated directly; an unrelated exception does not count as the finding)"""
     try:
-        return pred_spot_fft(c) is not None
+        pr, _ = _impl()
+        lam, efl, dx = 0.5, 100.0, 0.5
+        psf = pr.Wavefront(np.ones((8, 12), dtype=complex), lam, dx).focus(efl, Q=1)
+        true_dy = lam * efl / (psf.data.shape[0] * dx)
+        return psf.data.shape[0] != psf.data.shape[1] and abs(float(psf.dx) - true_dy) > 1e-9 * true_dy
     except Exception:
-        return True
+        return False
 
 
 KNOWN = {KNOWN_KEY: {'witness': _witness}}
@@ -331,29 +376,34 @@ def _shape(rng, hi, lo=3):
     return m, n
 
 
-def gen_fixed(rng, hi, i, direction='fwd'):
-    m, n = _shape(rng, hi)
+def gen_fixed(rng, hi, i, direction='fwd', lo=1):
+    m, n = _shape(rng, hi, lo)
     if rng.integers(4) == 0:
         n = m
-    M, N = _shape(rng, hi + 4, 2)
+    M, N = _shape(rng, hi + 4, 1 if lo == 1 else 2)
+    if rng.integers(4) == 0:
+        N = M
     lam, efl, dx = _optics(rng)
     fac = FACT[int(rng.integers(len(FACT)))]
     ref = n if rng.integers(2) else m
     dxo = fac * lam * efl / (ref * dx)
     sh = SHIFTS[int(rng.integers(len(SHIFTS)))] if rng.integers(3) else (0, 0)
+    dtype, layout = L.draw_kind(rng)
+    sform, hform = L.draw_forms(rng, M, N, sh)
     return {'dir': direction, 'm': m, 'n': n, 'M': M, 'N': N, 'lam': lam, 'efl': efl, 'dx': dx, 'dxo': dxo,
-            'shift': list(sh), 'method': 'czt' if (i + int(rng.integers(2))) % 2 else 'mdft', 'seed': int(rng.integers(1 << 30))}
+            'shift': list(sh), 'method': 'czt' if (i + int(rng.integers(2))) % 2 else 'mdft', 'seed': int(rng.integers(1 << 30)),
+            'dtype': dtype, 'layout': layout, 'sform': sform, 'hform': hform, 'api': 'function' if rng.integers(3) == 0 else 'wrapper'}
 
 
 def gen_spot_fixed(rng, hi, i):
-    c = gen_fixed(rng, hi, i)
+    c = gen_fixed(rng, hi, i, lo=3)
     m, n = c['m'], c['n']
     # window large enough to contain the spot: up to ~2x the samples of the pupil
     c['M'], c['N'] = int(rng.integers(max(4, m), 2 * m + 3)), int(rng.integers(max(4, n), 2 * n + 3))
     k = TILTS[int(rng.integers(len(TILTS)))]
     k2 = TILTS[int(rng.integers(len(TILTS)))] if i % 5 == 0 else 0
     c['ky'], c['kx'] = (k, k2) if i % 2 else (k2, k)
-    del c['dir'], c['seed']
+    del c['dir'], c['seed'], c['dtype'], c['layout'], c['api']
     return c
 
 
@@ -429,34 +479,49 @@ def correspondence(ctx):
     for i in range(n_model):
         for direction in ('fwd', 'inv'):
             c = gen_fixed(rng, hi, i, direction)
-            f = _field(c['seed'], (c['m'], c['n']))
+            f = L.case_field(c)
             sx, sy = c['shift'][0] * c['dxo'], c['shift'][1] * c['dxo']
             head = ['fs', direction, str(c['m']), str(c['n']), str(c['M']), str(c['N'])]
             nums = [C.f2w(v) for v in (c['dx'], c['efl'], c['lam'], c['dxo'], sx, sy)]
-            lines.append(' '.join(head + nums + _wire_field(f)))
+            lines.append(' '.join(head + nums + _wire_field(L.as_complex(f))))
             meta.append(('fs', (c, f, sx, sy)))
     for i in range(n_fft):
         for direction in ('fwd', 'inv'):
-            m, n = _shape(rng, hi, 2)
+            m, n = _shape(rng, hi, 1)
             if i % 3 == 0:
                 n = m
             lam, efl, dx = _optics(rng)
             Q = QS[i % len(QS)]
             seed = int(rng.integers(1 << 30))
-            f = _field(seed, (m, n))
-            c = {'dir': direction, 'm': m, 'n': n, 'Q': Q, 'lam': lam, 'efl': efl, 'dx': dx, 'seed': seed}
-            lines.append(' '.join(['fft', direction, str(m), str(n)] + [C.f2w(v) for v in (Q, dx, lam, efl)] + _wire_field(f)))
-            meta.append(('fft', (c, f)))
+            dtype, layout = L.draw_kind(rng)
+            c = {'dir': direction, 'm': m, 'n': n, 'Q': Q, 'lam': lam, 'efl': efl, 'dx': dx, 'seed': seed, 'dtype': dtype, 'layout': layout}
+            f = L.case_field(c)
+            item = 'fft_focus' if direction == 'fwd' else 'fft_unfocus'
+            try:
+                wf = pr.Wavefront(f, lam, dx, 'pupil' if direction == 'fwd' else 'psf')
+                out = C.pure_call(ctx, item, c, wf.focus if direction == 'fwd' else wf.unfocus, efl, Q)
+                Mp, Np = out.data.shape
+            except Exception as ex:
+                ctx.case(item, c, nontrivial=m * n > 1, tag=f'Q{Q}/raised')
+                ctx.disagree(item, c, f'raised {type(ex).__name__}: {ex}', 'model returns a field')
+                continue
+            if Mp < m or Np < n:
+                ctx.case(item, c, nontrivial=m * n > 1, tag=f'Q{Q}/shrunk')
+                ctx.disagree(item, c, [Mp, Np], f'>= {[m, n]}', note='padded array smaller than the input')
+                continue
+            lines.append(' '.join(['fft', direction, str(m), str(n), str(Mp), str(Np)] + [C.f2w(v) for v in (dx, lam, efl)]
+                                  + _wire_field(L.as_complex(f))))
+            meta.append(('fft', (c, f, out)))
     # a few points straight from Model.C03.fixedSampling (no memoisation in the driver): ties the table to the definition
     pts = []
     for i in range(6):
         c = gen_fixed(rng, 7, i, 'fwd' if i % 2 else 'inv')
-        f = _field(c['seed'], (c['m'], c['n']))
+        f = L.case_field(c)
         sx, sy = c['shift'][0] * c['dxo'], c['shift'][1] * c['dxo']
         k, l = int(rng.integers(c['M'])), int(rng.integers(c['N']))
         head = ['fspt', c['dir'], str(c['m']), str(c['n']), str(c['M']), str(c['N']), str(k), str(l)]
         nums = [C.f2w(v) for v in (c['dx'], c['efl'], c['lam'], c['dxo'], sx, sy)]
-        lines.append(' '.join(head + nums + _wire_field(f)))
+        lines.append(' '.join(head + nums + _wire_field(L.as_complex(f))))
         meta.append(('fspt', (c, f, sx, sy, k, l)))
     replies = C.lean_driver('C03', lines)
 
@@ -482,10 +547,11 @@ def correspondence(ctx):
             fn = pr.focus_fixed_sampling if c['dir'] == 'fwd' else pr.unfocus_fixed_sampling
             item = 'ffs' if c['dir'] == 'fwd' else 'ufs'
             tag = (f"{c['method']}/{'sq' if c['m'] == c['n'] else 'nonsq'}/par{c['m'] % 2}{c['n'] % 2}/"
-                   f"{'shift' if any(c['shift']) else 'noshift'}")
+                   f"{'shift' if any(c['shift']) else 'noshift'}/{c['dtype']}-{c['layout']}/samples-{c['sform']}/shift-{c['hform']}")
             ctx.case(item, c, nontrivial=c['m'] * c['n'] > 1, tag=tag)
             try:
-                out = fn(f, c['dx'], c['efl'], c['lam'], c['dxo'], (c['M'], c['N']), shift=(sx, sy), method=c['method'])
+                out = C.pure_call(ctx, item, c, L.call_fixed, fn, f, c['dx'], c['efl'], c['lam'], c['dxo'], c['M'], c['N'], sx, sy,
+                                  c['method'], c['sform'], c['hform'])
             except Exception as ex:
                 ctx.disagree(item, c, f'raised {type(ex).__name__}: {ex}', 'model returns a field')
                 continue
@@ -513,32 +579,21 @@ def correspondence(ctx):
                 ctx.disagree(item, c, f'out[{k},{l}]={complex(out[k, l]):.6g}', f'{complex(mod[k, l]):.6g} (rel. err {err:.3g})')
             continue
         if kind == 'fft':
-            c, f = dat
+            c, f, out = dat
             item = 'fft_focus' if c['dir'] == 'fwd' else 'fft_unfocus'
             toks = rep.split()
-            Mp, Np, dxm = int(toks[0]), int(toks[1]), C.w2f(toks[2])
+            dxm = C.w2f(toks[0])
+            Mp, Np = out.data.shape
             ctx.case(item, c, nontrivial=c['m'] * c['n'] > 1,
-                     tag=f"Q{c['Q']}/{'sq' if Mp == Np else 'nonsq'}/par{c['m'] % 2}{c['n'] % 2}")
-            try:
-                if c['dir'] == 'fwd':
-                    out = pr.Wavefront(f, c['lam'], c['dx'], 'pupil').focus(c['efl'], c['Q'])
-                else:
-                    out = pr.Wavefront(f, c['lam'], c['dx'], 'psf').unfocus(c['efl'], c['Q'])
-            except Exception as ex:
-                ctx.disagree(item, c, f'raised {type(ex).__name__}: {ex}', 'model returns a field')
-                continue
-            if out.data.shape != (Mp, Np):
-                ctx.disagree(item, c, list(out.data.shape), [Mp, Np], note='padded shape')
-                continue
-            if not abs(out.dx - dxm) <= 1e-13 * abs(dxm):
-                ctx.disagree(item, c, float(out.dx), dxm, note='reported dx')
-            mod = _unwire_field(toks[3:], (Mp, Np))
+                     tag=f"Q{c['Q']}/{'sq' if Mp == Np else 'nonsq'}/par{c['m'] % 2}{c['n'] % 2}/{c['dtype']}-{c['layout']}")
+            bad = L.check_wavefront(out, 'focus(...)' if c['dir'] == 'fwd' else 'unfocus(...)', (Mp, Np), dxm, c['lam'],
+                                    'psf' if c['dir'] == 'fwd' else 'pupil')
+            if bad:
+                ctx.disagree(item, c, bad, f'dx = {dxm}', note='returned Wavefront')
+            mod = _unwire_field(toks[1:], (Mp, Np))
             err = _relerr(out.data, mod)
             if err > TOL:
                 ctx.disagree(item, c, 'field', f'rel. err {err:.3g}')
-            want_space = 'psf' if c['dir'] == 'fwd' else 'pupil'
-            if out.space != want_space:
-                ctx.disagree(item, c, out.space, want_space, note='space')
 
     # ---------------- property predicates on the real code
     def run(item, c, nontrivial=True, tag=None):
@@ -616,6 +671,16 @@ def _small_scope():
                          'dxo': 0.8 * lam * efl / (n * dx), 'shift': list(sh), 'method': method, 'seed': 7}
                     yield 'phys_fixed', c
                     yield 'shift_fixed', dict(c, p=[1, -2])
+                    if (m, n) in ((4, 4), (4, 6), (5, 8)):
+                        for dtype in ('f8', 'i8', 'b1'):
+                            yield 'phys_fixed', dict(c, dtype=dtype, layout='T' if dtype == 'f8' else 'S', api='function')
+                        if not any(sh):
+                            yield 'phys_fixed', dict(c, hform='default', api='function')
+                            yield 'phys_fixed', dict(c, hform='default', api='wrapper')
+                        yield 'phys_fixed', dict(c, N=c['M'], sform='int', api='function')
+                        yield 'phys_fixed', dict(c, N=c['M'], sform='int', api='wrapper')
+                        yield 'phys_fixed', dict(c, sform='list', hform='array', api='function')
+                        yield 'ffs' if direction == 'fwd' else 'ufs', c
             for pos in ((0, 0), (0, 1), (1, 0), (-1, 1), (-2, -1)):
                 yield 'tilt_unfocus_fixed', {'M': m, 'N': n, 'm': n + 1, 'n': m + 2, 'lam': lam, 'efl': efl, 'dx': 5.0,
                                              'dxo': 0.8 * lam * efl / (n * 5.0), 'pos': list(pos), 'method': method}
@@ -654,32 +719,44 @@ def replay(inp):
 
 
 MANIFEST_ENTRY = {
-    'technique': 'Lean 4 proof (field algebra over translator-generated Q/shift/dx arithmetic; character-law Fourier lemmas) '
-                 '+ model-vs-implementation correspondence + physical-oracle predicates on the real outputs',
+    'technique': 'Lean 4 proof (field algebra over translator-generated Q/shift/dx arithmetic; character-law Fourier lemmas; the '
+                 "Bluestein / matrix-DFT theorems of C01 applied to this check's own re-translation of the executor glue) + "
+                 'model-vs-implementation correspondence + physical-oracle predicates on the real outputs',
     'text': ('PROVED for all inputs (any field of scalars, any character e as the Fourier kernel, every array size/parity/shape): '
              'the pupil<->PSF spacing conversions are exact inverses; the per-axis Q that focus_fixed_sampling and '
              'unfocus_fixed_sampling hand to the transform satisfies 1/(n_a Q_a) = dx*dx_out/(lambda z) on BOTH axes; the shift '
-             'reaches the transform as shift/dx_out on both axes; with those constants every array element of the matrix-DFT model '
-             'is a unit phase times the physical focusing integral at ((k-M//2) dx_out - shift_y, (l-N//2) dx_out - shift_x) '
-             '(1-D per axis over the generated definitions, and 2-D for the whole model of either direction); the tilt theorem '
-             '(k waves across D move the focal field by exactly k lambda z/D, any real k); a point source unfocuses to the '
-             'corresponding tilt; p more output samples of shift translate the result by exactly p samples; the FFT route '
-             '(centred DFT of the origin-preserving zero pad) samples the same integral at (l-N//2)*dx_reported on axis 1 always, '
-             'and on axis 0 iff the padded array is square (exact characterisation of the known finding). '
-             'TRANSLATED from the current source each run: Q_for_sampling, pupil_sample_to_psf_sample, psf_sample_to_pupil_sample, '
-             'the Q/shift arithmetic of both fixed-sampling functions (symbolically executed up to the transform call, both method '
-             'branches required to receive the same arguments), which shape[k] feeds the dx reported by Wavefront.focus/unfocus, '
-             'the argument wiring of the Wavefront wrappers, and the shape of the FFT-route one-liners. '
-             'MODELLED AND COMPARED (not proved): that MatrixDFTExecutor / ChirpZTransformExecutor / scipy.fft compute the sums of '
-             'the model (complex values at 1e-9 on random fields, non-square shapes, shifts, both methods and directions), and the '
-             "property's own predicates on the real outputs (spot of a tilted aperture at k lambda f/D in the reported coordinates, "
-             'physical integral at reported coordinates, exact translation by shifts, spot -> tilt). '
-             'Also proved: fftshift(fft(ifftshift(x))) with NumPy\'s index rotations IS the centred DFT for every length, so the FFT '
-             'route is covered end to end on each axis under the contract that scipy.fft computes the DFT sum. '
-             'PARTIAL: FFT-route y-coordinate claims are restricted to square padded arrays (known finding fft-nonsquare-dx); '
-             'that the spot is the global maximum of |F| is proved for a flat pupil with any tilt and the actual kernel '
-             'exp(-2 pi i t) (spot_is_brightest_real), for other pupils it is only what the integral says.'),
+             'reaches the transform as shift/dx_out on both axes; a single int sample count is broadcast to (M, M) and the default '
+             'shift is zero; BOTH ENGINES over translated terms only: the matrix-DFT executor (wiring of shape/samples/shift to '
+             'rows and columns, exponent scalars, norms) and the chirp-Z executor (index glue of _prepare_czt_basis, chirp '
+             'constants, FFT convolution of any admissible length; inverse = conj o czt o conj), fed with the generated Q and '
+             'shift pairs, equal the model fixedSampling sample for sample (so the two methods are one function), and the array '
+             'the Lean driver prints is that model; every element of the model is norm * unit phase * the 2-D physical focusing '
+             'integral at ((k-M//2) dx_out - shift_y, (l-N//2) dx_out - shift_x), also written in the reported coordinates '
+             'fftrange(N)[l]*dx; tilt theorem (k waves across D move the focal field by exactly k lambda z/D, any real k) and spot '
+             'location on both axes at once; a point source unfocuses to the corresponding 2-D tilt; p more output samples of '
+             'shift (p any integer, either axis, either direction) translate the result by exactly p samples; FFT route: the '
+             'transform / rotation names read off the source of focus and unfocus give the centred DFT (every length), which '
+             'samples the integral at (l-N//2)*dx_reported on axis 1 always (focus and unfocus), spot location through the FFT '
+             'route, and in 2-D with the ortho norm and the pad offset of the source the y coordinate is (k-M//2) times the TRUE '
+             'axis-0 spacing, equal to the reported one iff the padded array is square (exact characterisation of the known '
+             'finding); for a flat tilted pupil and the actual kernel exp(-2 pi i t) the continuous |F| is maximal at k lambda f/D. '
+             'TRANSLATED from the current source each run (28 items): the three scalar conversions; the Q/shift/int-samples/'
+             'default-shift/return-value glue of both fixed-sampling functions by symbolic execution (both method branches must '
+             'receive the same arguments, the transform result must be returned untouched); which shape[k] feeds the dx of '
+             'Wavefront.focus/unfocus and what they return; argument wiring, int broadcast and returned container of the Wavefront '
+             'wrappers; transform and rotation names of the FFT one-liners; fftrange bounds; and the engine glue of fttools.py '
+             '(the items of tools/gen_c01.py re-emitted into Generated.C03). RECOGNISERS only (Bool facts, no arithmetic): '
+             'spaces of returned Wavefronts, norm=ortho, make_xy_grid / RichData.x,.y / Wavefront.intensity carrying shape and dx. '
+             'MODELLED AND COMPARED (not proved): that numpy/scipy execute the sums of the model (complex values at 1e-9 on fields '
+             'of dtype complex/float/int/bool in C, Fortran, transposed and strided layout, 1-sample axes included, every documented '
+             'spelling of sample counts and shifts, both methods and directions, purity of every call) and the property predicates '
+             'on the real outputs (analytic pattern of a tilted aperture and direct physical integral at the REPORTED coordinates, '
+             'complex at zero shift; brightest sample nearest to k lambda f/D; exact translation by shifts; spot -> tilt; dx, '
+             'wavelength, space and shape of every returned Wavefront). PARTIAL: FFT-route y-coordinate claims are restricted to '
+             'square padded arrays (known finding fft-nonsquare-dx); the phase of a SHIFTED single transform is left free (moduli '
+             'compared), its consistency between the legs is C05; "brightest array sample" is checked, only the continuous '
+             'maximum is proved.'),
     'note': ('Trusted: Lean kernel + propext/Classical.choice/Quot.sound; the ast->Lean translator (validated by running model vs '
-             'code each run); numpy/scipy primitives; float64 rounding (1e-9 tolerance, observed 1e-14). Not covered: cupy/torch '
-             'backends, float32 precision mode, energy normalisation (C02).'),
+             'code each run); numpy/scipy primitives (contract: fft = DFT sum); float64 rounding (1e-9 tolerance, observed 1e-14). '
+             'Not covered: cupy/torch backends, float32 precision mode, energy normalisation (C02), executor caches (C01).'),
 }
